@@ -217,3 +217,122 @@ def r3_ancestor_search(res, facts):
         else:
             r3.violation('stepPattern: fDoPredicates protocol', 'flag cleared by the case: %s; common evaluation guarded by the flag: %s' % (bool(flag_off), guarded), common.file_line(a))
     return r3
+
+
+def r4_positional_marking(res, facts):
+    """doStepPredicate re-runs a step from the parent (handleFoundIndex) only for predicates compiled as eOP_PREDICATE_WITH_POSITION;
+    a predicate that calls position() or last() but is not marked is evaluated against whatever node list is current when the
+    pattern is matched (the apply-templates list, the key builder's list), so pattern and expression disagree."""
+    from ..mast import CFG, pp
+    r = res.rule('C09-R4', 'every compile function that emits a call of position() or last() (eOP_FUNCTION_POSITION, eOP_FUNCTION_LAST, or the generic call of those names) marks the '
+                 'enclosing predicate positional (m_positionPredicateStack.back() = true) on every path that does not report an error; PredicateExpr turns the mark into '
+                 'eOP_PREDICATE_WITH_POSITION, which is what makes pattern matching re-run the step from the parent', floor=4)
+    emitters = []
+    for k in facts.astidx:
+        f = facts.F.get(k)
+        if not f or f.get('cls') != 'xalanc_1_12::XPathProcessorImpl':
+            continue
+        a = facts.ast(k)
+        if a is None:
+            continue
+        ops = set()
+        for c in calls(a['body']):
+            if (c.get('n') or '') in ('appendOpCode', 'replaceOpCode', 'insertOpCode'):
+                for x in c.get('args', []):
+                    nm = strip_casts(x).get('n') if isinstance(strip_casts(x), dict) else None
+                    if nm in ('eOP_FUNCTION_POSITION', 'eOP_FUNCTION_LAST'):
+                        ops.add(nm)
+        if ops:
+            emitters.append((a, sorted(ops)))
+
+    def is_mark(n):
+        if n.ast is None or n.kind != 'stmt':
+            return False
+        for x in walk(n.ast):
+            if x.get('k') in ('Bin', 'OpCall') and x.get('op') == '=':
+                lhs = x['lhs'] if x['k'] == 'Bin' else x['args'][0]
+                rhs = x['rhs'] if x['k'] == 'Bin' else x['args'][1]
+                if 'm_positionPredicateStack.back()' in pp(lhs) and strip_casts(rhs).get('cv') == 1:
+                    return True
+        return False
+
+    def is_err(n):
+        return n.ast is not None and any((c.get('n') or '') == 'error' for c in calls(n.ast))
+    if len(emitters) < 2:
+        raise AnalysisBroken('only %d functions emit eOP_FUNCTION_POSITION / eOP_FUNCTION_LAST' % len(emitters))
+    for a, ops in emitters:
+        cfg = CFG(a)
+        site = '%s emits %s' % (short(a['name']), '/'.join(o[1:] for o in ops))
+        seen = set()
+        work = [cfg.entry]
+        escaped = False
+        while work:
+            n = work.pop()
+            if n.id in seen:
+                continue
+            seen.add(n.id)
+            if n is cfg.exit:
+                escaped = True
+                break
+            if is_mark(n) or is_err(n):
+                continue
+            if n.kind == 'cond' and n.ast is not None and 'm_positionPredicateStack.empty()' in pp(n.ast):
+                core, eff = common.norm_atom(n.ast, True)
+                # follow only the branch on which the stack is NOT empty: with an empty stack there is no predicate to mark
+                nonempty = n.cond_false if eff else n.cond_true
+                if nonempty is not None:
+                    work.append(nonempty)
+                continue
+            work.extend(n.succ)
+        if escaped:
+            r.violation(site, 'a path compiles the call without marking the enclosing predicate positional: in a match pattern the predicate is then evaluated against the node list '
+                        'that happens to be current, not against the siblings the step selects', common.file_line(a))
+        else:
+            r.ok(site, 'marks the predicate on every non-error path')
+    # the generic function-call path marks by name
+    gen = [a for a in [facts.ast(k) for k in facts.astidx if facts.F.get(k, {}).get('cls') == 'xalanc_1_12::XPathProcessorImpl'] if a is not None and short(a['name']).endswith('::FunctionCall')]
+    for a in gen:
+        cfg = CFG(a)
+        must = common.must_conds(cfg)
+        marks = [n for n in cfg.nodes if is_mark(n)]
+        names = set()
+        for n in marks:
+            txt = ' '.join(pp(at) for at, br in must.get(n.id, []) if br)
+            for nm in ('s_positionString', 's_lastString'):
+                if nm in txt:
+                    names.add(nm)
+        # the two names are alternatives of one ||: they do not show up as must-conditions; look at the condition text that guards the mark
+        for x in walk(a['body']):
+            if x.get('k') == 'If' and any(is_mark_ast(y) for y in walk(x['then'])):
+                t = pp(x['cond'])
+                for nm in ('s_positionString', 's_lastString'):
+                    if nm in t:
+                        names.add(nm)
+        if names == {'s_positionString', 's_lastString'}:
+            r.ok('FunctionCall (generic call): marks for position and last')
+        else:
+            r.violation('FunctionCall (generic call)', 'the generic call path marks the predicate for %s only' % (sorted(names) or 'neither name'), common.file_line(a))
+    # PredicateExpr converts the mark
+    for a in facts.asts('XPathProcessorImpl::PredicateExpr'):
+        txt = ' '.join(pp(c) for c in calls(a['body']))
+        if 'replaceOpCode' in txt and 'eOP_PREDICATE_WITH_POSITION' in txt and any('m_positionPredicateStack.back()' in pp(x.get('cond')) for x in walk(a['body']) if x.get('k') == 'If'):
+            r.ok('PredicateExpr: a marked predicate becomes eOP_PREDICATE_WITH_POSITION')
+        else:
+            r.violation('PredicateExpr', 'the positional mark is no longer turned into eOP_PREDICATE_WITH_POSITION', common.file_line(a))
+    return r
+
+
+def is_mark_ast(x):
+    from ..mast import pp
+    if x.get('k') in ('Bin', 'OpCall') and x.get('op') == '=':
+        lhs = x['lhs'] if x['k'] == 'Bin' else x['args'][0]
+        return 'm_positionPredicateStack.back()' in pp(lhs)
+    return False
+
+
+_run_c09_prev = run
+
+
+def run(res, facts, tier):
+    _run_c09_prev(res, facts, tier)
+    r4_positional_marking(res, facts)
